@@ -723,7 +723,10 @@ def h5_position_table(ctx, rid='H5'):
                 starts = [sum(ws[:j]) for j in range(k + 1)]       # byte offset of character j; the last one is the byte length
                 inside = [(None, off) for off in range(sum(ws)) if off not in starts]
                 # offsets inside a character are not offsets of a match; they are walked for unwinding only
-                for j, off in list(enumerate(starts)) + inside:
+                beyond = [('beyond', sum(ws) + 1), ('beyond', sum(ws) + 3)]
+                # offsets behind the end of the line (a match on a case-mapped copy that is longer than the line, C17-c): whatever
+                # they become, it is a position of the line - at most the number of its characters
+                for j, off in list(enumerate(starts)) + inside + beyond:
                     m2 = Machine(gp, model, max_steps=20000)
                     m2.enter = enter
                     m2.env['coll'] = coll
@@ -736,6 +739,10 @@ def h5_position_table(ctx, rid='H5'):
                     if j is None:
                         continue
                     got = m2.deref_value(m2.load(0))
+                    if j == 'beyond':
+                        if not (isinstance(got, int) and 0 <= int(got) <= k):
+                            bad.setdefault('beyond-the-line', 'in a line of %d characters taking %s bytes the byte offset %d (behind the end of the line) becomes position %r: past the last character' % (k, list(ws), off, got))
+                        continue
                     n += 1
                     if isinstance(got, int) and int(got) == j:
                         ctx.ok(rid, 'widths %s: byte offset %d -> character %d' % (list(ws), off, j), 'table', site=gp.loc, sample=(n in (2, 30, 200)))
@@ -794,3 +801,81 @@ def h6_no_narrowing(ctx, rid='H6'):
 
 
 RULES.append(('H6', h6_no_narrowing))
+
+
+def h7_collision_collection(ctx, rid='H7'):
+    """H7 a new highlight span is accepted exactly when it shares no position with *any* token already in the collection -
+    whatever the order in which those were pushed (the regex passes of one line push out of order: a later family can match left
+    of an earlier one). Tabulated (E6c) by walking check_collision over collections of up to two disjoint tokens in both push
+    orders and every candidate span on positions 0..6."""
+    from ..absint import Machine, Unknown
+    from .. import absstr
+    ctx.rule(rid, 'collision check against every token of the collection, in any push order', floor=1)
+    new = ctx.facts.one(r'^token::ui_token::UiTokenCollection::new$')
+    cc = ctx.facts.one(r'^token::ui_token::UiTokenCollection::check_collision$')
+    ctx.fn(cc)
+    if cc.argc != 3:
+        raise AnchorLost('check_collision: expected (&self, start, end), found %d parameters' % cc.argc)
+    enter = lambda path: path.startswith('token::ui_token::') or path.startswith('<token::ui_token::')
+
+    def model(m, path, args, t):
+        return absstr.std_model(m, path, args, t)
+    m0 = Machine(new, model, max_steps=20000)
+    m0.enter = enter
+    m0.env['line'] = ('str', [])
+    m0.env[1] = ('ptr', 'line', ())
+    try:
+        if m0.run(0) != 'return':
+            raise Unknown('UiTokenCollection::new did not return')
+    except Unknown as ex:
+        ctx.finding(rid, 'check_collision/not-extractable', 'the collision check could not be tabulated: %s' % ex, site=cc.loc)
+        return
+    base = m0.deref_value(m0.load(0))
+    vecs = [k for k, v in base.items() if isinstance(v, tuple) and len(v) == 2 and v[0] == 'vec' and k not in ('__caps__',) and not str(k).isdigit()]
+    tokf = [k for k in vecs if 'token' in k] or vecs
+    if len(tokf) != 1:
+        raise AnchorLost('UiTokenCollection: the token vector is not recognised among %s' % vecs)
+    P = 7
+    spans = [(a, b_) for a in range(P) for b_ in range(a + 1, P + 1)]
+    colls = [[]] + [[x] for x in spans if x[1] - x[0] <= 3]
+    for x in spans:
+        for y in spans:
+            if x[1] - x[0] <= 2 and y[1] - y[0] <= 2 and x[1] <= y[0]:
+                colls.append([x, y])
+                colls.append([y, x])            # pushed out of order
+    n = 0
+    bad = []
+    for coll in colls:
+        for (s_, e_) in spans:
+            if e_ - s_ > 3:
+                continue
+            n += 1
+            c = dict(base)
+            c[tokf[0]] = ('vec', [{'__adt__': 'token::ui_token::UiToken', '__variant__': 'UiToken', '__open__': True, 'start': a, 'end': b_} for a, b_ in coll])
+            mm = Machine(cc, model, max_steps=20000)
+            mm.enter = enter
+            mm.env['coll'] = c
+            mm.env[1] = ('ptr', 'coll', ())
+            mm.env[2] = s_
+            mm.env[3] = e_
+            try:
+                if mm.run(0) != 'return':
+                    raise Unknown('check_collision did not return')
+            except Unknown as ex:
+                ctx.finding(rid, 'check_collision/not-extractable', 'the collision check could not be tabulated (collection %s, candidate %s): %s' % (coll, (s_, e_), ex), site=cc.loc)
+                return
+            got = mm.deref_value(mm.load(0))
+            want = int(not any(a < e_ and b_ > s_ for a, b_ in coll))
+            if got != want:
+                bad.append((coll, (s_, e_), got, want))
+    if bad:
+        coll, cand, got, want = bad[0]
+        ctx.finding(rid, 'check_collision/collection/%s' % ('accepts-overlap' if got else 'rejects-free'),
+                    'with the tokens %s in the collection (in this push order) the candidate span %s is %s; it %s a token - %d of %d cells differ' % (
+                        coll, cand, 'accepted' if got else 'rejected', 'overlaps' if want == 0 else 'does not touch', len(bad), n), site=cc.loc)
+    else:
+        ctx.ok(rid, 'check_collision accepts a span exactly when it overlaps no token of the collection, in any push order (%d cells)' % n, 'absint', site=cc.loc)
+        ctx.rules[rid].instances += n - 1
+
+
+RULES.append(('H7', h7_collision_collection))
